@@ -81,6 +81,11 @@ CLAIMED["C18"] = dict(level="model_checking", design="DESIGN.md §6 C18",
     text="for every enumerated value tree (leaves over named integer/float points, strings over a 114-character alphabet, symbols, variables; empty and adjacent containers, depth <= 3) x indent {<0, 0, >0} x SDL/JSON x Sort: the real text equals the modelled text, reads back to the prescribed value through ParseValueString/ParseValue, and the JSON form is accepted by encoding/json and decodes to the same structure",
     note="Trusted: TLC, the harness' lexical splitter, encoding/json. Numbers are named points; map keys never hold invalid UTF-8 or NUL; harmless layout differences are reported as notes.")
 
+CLAIMED["C03"] = dict(level="exploration", design="DESIGN.md §6 C03, Part II B.6",
+    technique="TLA+ grammars and mutation actions (DocGen.tla/MCDocGen.tla) enumerated by TLC into inputs of the three languages, plus a TLA+ state machine of the resolver's recursion (ResolveDepth.tla over FragDocs.tla) model-checked for bounded depth; every enumerated input is run through every public entry point of the real code in isolated worker processes with a watchdog (prescribed outcome: returns); random longer derivations with token/byte mutations are recorded and judged by DocGenJudge.tla",
+    text="exploration: all token strings up to length 2-4 over 24-token alphabets (incl. NUL, invalid UTF-8, lone quotes, unterminated comments), every grammar derivation up to 6-8 tokens with every single/double token mutation, the fragment-cycle documents of the recursion model, (variable type x default x use site) x variable maps over JSON-shaped values of depth <= 2, (field x argument states); each run through Parse*/Resolve*/ParseValue*/SDL/Write* on 4 kinds of root incl. faulty readers at every offset; no panic, stack overflow or 2 s watchdog expiry",
+    note="Trusted: TLC, the isolating runner (worker death and watchdog attribution, reproduced alone in a fresh worker before it counts), the 2 s bound as 'bounded time'. Not decided: arbitrary byte sequences beyond the token alphabets and lengths (only sampled by random byte mutations).")
+
 NOT_YET = {
 }
 
